@@ -122,6 +122,7 @@ static Outcome run_policy(const json& j) {
     bool shrink_step = false, collider_found = false, exhausted = false;
     std::size_t prev_size = 0;
     std::size_t max_ids = 0;
+    std::set<type_id> ever_registered; // over the whole history
     int step = 0;
     for (auto& js : j.at("steps")) {
         ++step;
@@ -153,6 +154,7 @@ static Outcome run_policy(const json& j) {
         if (registered.size() < prev_size) {
             shrink_step = true;
         }
+        ever_registered.insert(registered.begin(), registered.end());
         prev_size = registered.size();
         max_ids = std::max(max_ids, registered.size());
         std::size_t budget = js.value("budget", 100000);
@@ -276,6 +278,18 @@ static Outcome run_policy(const json& j) {
                 probes.push_back(id << 1);
             }
             probes.push_back(0);
+            // ids registered by an earlier update and removed since (an
+            // unloaded library): stale entries must not survive
+            bool removed_probe = false;
+            for (auto id : ever_registered) {
+                if (!registered.count(id)) {
+                    probes.push_back(id);
+                    removed_probe = true;
+                }
+            }
+            if (removed_probe) {
+                o.classes.push_back("probe_of_id_removed_by_later_update");
+            }
             // ids constructed to land on an occupied bucket, or past
             // hash_length: brute force on the installed parameters
             std::uint64_t x = js.value("collider_seed", std::uint64_t(1));
